@@ -2,5 +2,6 @@ SPECIFICATION Spec
 CONSTANTS
   NCalls = 3
   OnErrorBody = "leave"
+  OnTimeout = "keep"
 INVARIANTS TypeOK OwnAnswer NoPhantom Isolation
 CHECK_DEADLOCK FALSE
